@@ -7,6 +7,11 @@ use reval::value::Value;
 use rust_decimal::prelude::*;
 use std::str::FromStr;
 
+/// assumptions the theorems make about a library primitive, checked on every answer given here; a violated one is
+/// reported by every check that used the oracle (Props/C16 `PP.OracleDecOK`: a decimal literal that the library accepts
+/// denotes a decimal in normal form — 96-bit mantissa and scale <= 28 by the type, and no negative zero)
+pub static ASSUMPTION_VIOLATIONS: std::sync::Mutex<Vec<String>> = std::sync::Mutex::new(Vec::new());
+
 fn as_dec(v: &Value) -> Option<Decimal> {
     match v {
         Value::Decimal(d) => Some(*d),
@@ -42,7 +47,15 @@ pub fn answer(frontier: &Sexp) -> Option<String> {
             Value::Float(f) => Decimal::try_from(*f).ok().map(Value::Decimal),
             _ => return None,
         },
-        "str.todec" => Decimal::from_str(as_str(&args[0])?).ok().map(Value::Decimal),
+        "str.todec" => {
+            let r = Decimal::from_str(as_str(&args[0])?).ok();
+            if let Some(d) = r {
+                if (d.is_zero() && d.is_sign_negative()) || d.scale() > 28 {
+                    ASSUMPTION_VIOLATIONS.lock().unwrap().push(format!("OracleDecOK: Decimal::from_str({:?}) = {:?} (negative zero or scale > 28)", as_str(&args[0])?, d));
+                }
+            }
+            r.map(Value::Decimal)
+        }
         "str.tof64" => f64::from_str(as_str(&args[0])?).ok().map(Value::Float),
         "str.todatetime" => as_str(&args[0])?.parse::<DateTime<Utc>>().ok().map(Value::DateTime),
         "str.upper" => Some(Value::String(as_str(&args[0])?.to_uppercase())),
